@@ -50,7 +50,9 @@ theorem respond_progress (s : LS) (i : Nat) (it : Inst) (hit : s.insts[i]? = som
     split <;> rfl
   · subst he; left
     simp only [LS.step, hit, hpc, if_true]
-    split <;> rfl
+    split
+    · rfl
+    · split <;> rfl
   · cases he
 
 /-- the event a worker goroutine performs next, when that does not depend on anybody else -/
